@@ -153,13 +153,19 @@ def _assert_clean_stack():
     _stack_checked = True
 
 
+DEFAULTS: list = []  # (edge_attr, node_attr) of every Digraph returned, in call order
+
+
 def _call_to_dot(sx, show, bind, share=False):
     """The only harness frame with predicate locals while to_dot runs: `p` (and `the_pred`, the same object)."""
     p = sx() if callable(sx) else lower(sx, {} if share else None)
     if bind:
         the_pred = p  # noqa: F841  the local that lazy_p("the_pred") resolves to
     try:
-        return p, to_dot(p, show_optimized=bool(show)).body, None
+        g = to_dot(p, show_optimized=bool(show))
+        # graph-level defaults matter too: an `edge [style=dashed]` default makes every parent-child edge dashed
+        DEFAULTS.append((dict(g.edge_attr or {}), dict(g.node_attr or {})))
+        return p, g.body, None
     except Exception as e:  # noqa: BLE001
         return p, None, e
 
@@ -180,6 +186,8 @@ def _real_dot(sx, show, bind, share=False):
     except Exception as e:  # noqa: BLE001
         raise HarnessError(f"cannot parse Digraph.body {res[1]!r}: {e}")
     problems = judge(res[0], opt[0], clusters, show)
+    if DEFAULTS and DEFAULTS[-1][0].get("style") not in (None, "solid"):
+        problems.append(f"graph-level edge default {DEFAULTS[-1][0]!r}: every parent-child edge without a style of its own is drawn {DEFAULTS[-1][0].get('style')}, not solid")
     return {"clusters": clusters, "problems": problems, "optimized_differs": bool(show) and opt[0] != res[0]}
 
 
